@@ -272,7 +272,7 @@ func cmdCheck(args []string) int {
 	confirmedKeys := map[string]*ViolationCase{}
 	var mismatches []string
 	if !*noReplay {
-		res, log, err := runNative(ld, cases, pc.Race)
+		res, log, err := runNative(ld, cases, pc.Race, pc.Isolate)
 		if err != nil {
 			fmt.Println("ENGINE-ERROR native replay:", err)
 			fmt.Println(tail(log, 40))
@@ -433,7 +433,7 @@ func cmdReplay(args []string) int {
 		return 3
 	}
 	doc.Case.ID = 0
-	res, log, err := runNative(ld, []ReplayCase{doc.Case}, propConfig(doc.Property).Race)
+	res, log, err := runNative(ld, []ReplayCase{doc.Case}, propConfig(doc.Property).Race, true)
 	if err != nil {
 		fmt.Println(log)
 		fmt.Println(err)
